@@ -15,6 +15,8 @@ pub(crate) struct EventProcessor {
   actors: Vec<AppenderActor>,
   error_tx: Option<FibreMpscBoundedSender<InternalErrorReport>>,
   max_level: LevelFilter,
+  /// Every configured logger (name, additive), whether or not it names an appender.
+  all_loggers: Vec<(String, bool)>,
 }
 
 impl EventProcessor {
@@ -31,7 +33,13 @@ impl EventProcessor {
       actors,
       error_tx,
       max_level,
+      all_loggers: Vec::new(),
     }
+  }
+
+  pub(crate) fn with_loggers(mut self, loggers: Vec<(String, bool)>) -> Self {
+    self.all_loggers = loggers;
+    self
   }
 
   /// The most permissive level any appender can accept. Used as the global
@@ -91,6 +99,14 @@ impl EventProcessor {
     for (prefix, (_, additive)) in rules.iter().flatten() {
       if winner.map_or(true, |(wp, _)| prefix.len() > wp.len()) {
         winner = Some((*prefix, *additive));
+      }
+    }
+    // Loggers that name no appender appear in no rule map but still decide additivity.
+    for (name, additive) in &self.all_loggers {
+      if crate::subscriber::actor::target_matches_prefix(metadata.target(), name)
+        && winner.map_or(true, |(wp, _)| name.len() > wp.len())
+      {
+        winner = Some((name.as_str(), *additive));
       }
     }
     let non_additive_gate: Option<&str> = match winner {
